@@ -545,6 +545,10 @@ func (r *RowCache) uuidsByConditionsAsIndexes(conditions []ovsdb.Condition, nati
 		}
 		keys := []interface{}{}
 		if v.Kind() == reflect.Map && condition.Function == ovsdb.ConditionIncludes {
+			if v.Len() == 0 {
+				// every row includes the empty map: this is not an equality
+				return nil
+			}
 			for _, key := range v.MapKeys() {
 				keys = append(keys, key.Interface())
 			}
